@@ -234,12 +234,56 @@ def stack_discipline(F, f):
         fails = [r for r in f.walk() if r.get('k') == 'Return' and r.get('c') and (render(r['c'][0]) in ('false', 'nullptr') or r['c'][0].get('k') == 'Bool')]
         through = [x['i'] for x in pops] + [x['i'] for x in fails]
         for c in pushes:
-            yield c, p['n'], must_pass(cfg, c, through), '%d pop_back, %d literal returns' % (len(pops), len(fails))
+            ok = must_pass(cfg, c, through)
+            detail = '%d pop_back, %d literal returns' % (len(pops), len(fails))
+            if not ok:
+                why = first_iteration_pairing(F, f, c, pops)
+                if why:
+                    ok, detail = True, why
+            yield c, p['n'], ok, detail
 
 
-STACK_EXEMPT = {
-    ('recordVariableEquivalences', 'indexStack'): 'correlated conditions the path-insensitive rule cannot see: the push happens in the first iteration of the inner loop (j == 0), which runs iff equivalentVariableCount() > 0, the very condition of the pop',
-}
+def first_iteration_pairing(F, f, push, pops):
+    """The correlated form `for (j = 0; j < N; ++j) { if (j == 0) push; ... }  if (N > 0) pop;`: the push happens in the first iteration, which
+    exists iff N > 0, the condition of the pop.  Holds when (1) the push is under `j == 0` for the induction variable j of a loop that starts at 0 and
+    runs while j < N, (2) that test is reached in every iteration: it dominates every continue/break/return of the loop body (a `continue` in front
+    of it skips the push in the first iteration but not the pop), (3) a pop directly after the loop is under `N > 0` for the same N."""
+    from engines import enclosing_conditions, facts_x
+    cfg = f.cfg()
+    enc = enclosing_conditions(f, push)
+    if not enc:
+        return None
+    cnd, br, st = enc[0]
+    txt = render(cnd).replace(' ', '')
+    loop = next((a for a in f.ancestors(push) if a.get('k') == 'For'), None)
+    if loop is None or br != 'then':
+        return None
+    ivs = [v for v in walk(role(loop, 'init') or {}) if v.get('k') == 'Var' and v.get('c') and render(v['c'][0]).strip() in ('0', '0U', '0UL')]
+    if not ivs:
+        return None
+    j = ivs[0]['n']
+    if txt not in ('%s==0' % j, '0==%s' % j):
+        return None
+    lc = render(role(loop, 'cond')).strip()
+    if not lc.startswith(j + ' < '):
+        return None
+    N = lc[len(j) + 3:]
+    body = role(loop, 'body')
+    stmts = body.get('c', []) if body.get('k') == 'Compound' else [body]
+    at = next((k for k, s_ in enumerate(stmts) if s_ is st), None)
+    if at is None:
+        return None      # the `j == 0` test is nested in something else: not reached in every iteration
+    for k, s_ in enumerate(stmts[:at + 1]):
+        if any(x.get('k') in ('Continue', 'Break', 'Return', 'Goto') and f.enclosing_lambda(x) is None for x in walk(s_)):
+            return None  # a jump in front of (or inside) the first-iteration push
+    for pp in pops:
+        fx = facts_x(F, f, pp) or set()
+        if any(tr and t.replace(' ', '') in ((N + '>0').replace(' ', ''), (N + '!=0').replace(' ', '')) for t, tr in fx) and not any(a is loop for a in f.ancestors(pp)):
+            return 'pushed in the first iteration of `for (%s)` (the `%s == 0` test is reached in every iteration), popped under `%s > 0`' % (lc, j, N)
+    return None
+
+
+STACK_EXEMPT = {}
 
 
 def rule_stack_discipline(F, rep, rid, pred, floor, where_txt):
